@@ -229,6 +229,8 @@ mod share;
 mod skip;
 #[cfg(feature = "take")]
 mod take;
+#[cfg(feature = "verif")]
+pub mod verif;
 mod utils;
 
 #[doc = include_str!("../README.md")]
